@@ -1,0 +1,10 @@
+//go:build verif
+
+// Contracts for package context, read by the /verif condition generator (govc).
+// Compiled only with -tags verif; adds no behaviour.
+package context
+
+// trivial getters are executed in place by the generator
+//@ contract Context.Configuration
+//@   tags C04
+//@   opt inline yes
